@@ -295,9 +295,19 @@ def gen_sentence(rnd, exact_only=False, allow_default_kf=False):
     nk = rnd.choice([0, 1, 2, 2, 3, 3, 4, 5])
     used = set()
     kfs = []
+    last = None  # (macro position text, builder position text, exact?, tag) of the previous keyframe
     for _ in range(nk):
         k = rnd.random()
-        if k < 0.25 and 0.0 not in used:
+        if last is not None and rnd.random() < 0.12:
+            # a second keyframe at the *same* position (a step): written order decides which value is
+            # approached and which one the animation continues from
+            pm, pb, ex, tag = last
+            alias = {"from": "0%", "0%": "from", "to": "100%", "100%": "to"}.get(pm)
+            if alias and rnd.random() < 0.5:
+                pm = alias
+                pb = "0.0f32" if pm in ("from", "0%") else "1.0f32"
+            pos_m, pos_b, tag = pm, pb, tag + "+same-position"
+        elif k < 0.25 and 0.0 not in used:
             used.add(0.0)
             pos_m, pos_b, ex, tag = "from", "0.0f32", True, "from"
         elif k < 0.5 and 1.0 not in used:
@@ -324,6 +334,7 @@ def gen_sentence(rnd, exact_only=False, allow_default_kf=False):
             used.add(reading)
             pos_m, pos_b = lit + "%", f"({f32lit(n)} / 100.0f32)"
         exact &= ex
+        last = (pos_m, pos_b, ex, tag.replace("+same-position", ""))
         if allow_default_kf and rnd.random() < 0.3:
             kfs.append((pos_m + " default", f".keyframe(V::keyframe_from(&default_values, {pos_b}))", tag + "+default"))
         else:
